@@ -1,4 +1,4 @@
--- PINNED by bin/pin_tables: copy of Gen/Dispatch.lean as generated from /repo at 9b0aa10 — regenerate, do not edit
+-- PINNED by bin/pin_tables: copy of Gen/Dispatch.lean as generated from /repo at 3b38938 — regenerate, do not edit
 namespace Ggql.Pinned
 def dispatchOrder : List String := ["resolver", "any", "reflect"]
 def opFallbackAnyName : Bool := false
@@ -31,6 +31,7 @@ def argsInPlace : Bool := false
 def argsSortedOnce : Bool := false
 def condByIdentity : Bool := false
 def anonAmongOthers : Bool := false
+def metaArgsUnchecked : Bool := false
 def reflectOptionalRefused : Bool := false
 def inputDefaultsRaw : Bool := true
 def listNotCoerced : Bool := false
@@ -49,7 +50,7 @@ def argSkeleton : List (String × String) := [
   ("Root.formArgs", "4ce1628b3fc4"),
   ("Root.formReflectArgs", "d5fdfd091c17"),
   ("Root.replaceArgVars", "8e6170986780"),
-  ("Root.resolveField", "f0c7e214a165"),
+  ("Root.resolveField", "d8dcc1486960"),
   ("Root.resolveReflect", "3ca8b8cb64d4"),
   ("checkReflectArgs", "2fe173b3f604")
 ]
